@@ -4,7 +4,7 @@
 //! byte-fault injector that decorates the resulting op list.
 use crate::op::{BFault, Cfg, Op, TOp};
 use crate::rng::Rng;
-use crate::spec::{Tables, SPEC};
+use crate::spec::Tables;
 use crate::world::*;
 
 pub const MS: u64 = 1_000_000;
@@ -30,7 +30,7 @@ pub struct TypistParams {
 /// Physical keys the standard knows, for the configured device.
 pub fn known_phys(cfg: &Cfg) -> Vec<(u8, u8)> {
     let mut v = Vec::new();
-    for (_, s1, s2) in SPEC.iter() {
+    for (_, s1, s2) in crate::spec::tables().rows.iter() {
         if cfg.set == 1 && cfg.xt {
             if let Some(pc) = s1 {
                 v.push(*pc);
